@@ -1246,9 +1246,11 @@ def renumber_inlined(tree):
 
 def reparent(tree):
     tree._parent = None
+    from .model import _SHARED_NODES
     for node in ast.walk(tree):
         for child in ast.iter_child_nodes(node):
-            child._parent = node
+            if not isinstance(child, _SHARED_NODES):
+                child._parent = node
 
 
 def _own_methods(trees, cname):
